@@ -73,6 +73,8 @@ def make_ios(g, rng, mod, wide=False):
     ios.via_objects = rng.random() < 0.3
     # no tags on the members at all (legal: nothing but the last member is OPTIONAL); the open type is then ANY-like in BER
     ios.untagged = mod.tagdefault != "AUTOMATIC" and rng.random() < 0.4
+    # the open type component is OPTIONAL: asn1c then holds it by pointer (needs its own tag: ANY-like otherwise)
+    ios.opt_value = (not ios.untagged) and rng.random() < 0.3
     return ios
 
 
@@ -95,7 +97,7 @@ def ios_text(ios, mod):
     if ios.pre:
         members.append("pre %sBOOLEAN" % tag())
     members.append("ident %sFS.&id({FT})" % tag())
-    members.append("value %sFS.&Type({FT}{@%sident})" % (tag(), "." if ios.dot else ""))
+    members.append("value %sFS.&Type({FT}{@%sident})%s" % (tag(), "." if ios.dot else "", " OPTIONAL" if ios.opt_value else ""))
     if ios.post:
         members.append("post %sINTEGER OPTIONAL" % tag())
     if ios.ext_frame:
@@ -132,7 +134,7 @@ def shadow_frame(ios, mod, rowtype):
     idt = copy.copy(ios.idtype)
     idt.tag = tg()
     comps.append(Comp("ident", idt))
-    vc = Comp("value", Type("REF", ref=rowtype, tag=tg("EXPLICIT")))
+    vc = Comp("value", Type("REF", ref=rowtype, tag=tg("EXPLICIT")), optional=ios.opt_value)
     vc.open = True
     comps.append(vc)
     if ios.post:
@@ -324,6 +326,20 @@ def run(tier, seed):
                         cid += 1
                         cases.append(drv.Case(cid, ["dec s=0 t=Frame syn=UPER in=%s" % drv.hx(uu), "enc s=0 syn=DER quiet=1", "prt s=0", "free s=0"]))
                         meta[cid] = ("unknown-id-UPER", tn, uid, fu, uu, None, None)
+        if ios.opt_value:
+            for idv, tn in ios.rows:
+                fa = fval(idv, None)
+                del fa["value"]
+                try:
+                    aref = enc.encode(frames[tn], fa)
+                except der.Unsupported:
+                    continue
+                cid += 1
+                cases.append(drv.Case(cid, ["dec s=0 t=Frame syn=BER in=%s" % drv.hx(aref), "enc s=0 syn=DER", "enc s=0 syn=CXER",
+                                            "enc s=0 syn=UPER reg=1", "dec s=1 t=Frame syn=UPER inreg=1", "enc s=1 syn=DER", "free s=1",
+                                            "enc s=0 syn=CXER reg=3", "dec s=1 t=Frame syn=CXER inreg=3", "enc s=1 syn=DER", "free s=1",
+                                            "chk s=0 eb=64", "prt s=0", "free s=0"]))
+                meta[cid] = ("absent", tn, idv, fa, aref, None, None)
         res = drv.run_parallel(exe, cases)
         # second round: mutations of the library's and the reference's encodings
         cases2, meta2 = [], {}
@@ -479,6 +495,20 @@ def run(tier, seed):
                 if len(chk.samples) < 6:
                     chk.sample({"frame": ios_text(ios, mod)[:300], "row": tn, "ident": str(idv), "der": x.hex()[:80], "uper": (ev[3].get("out") or "")[:60],
                                 "cxer": cx[:120].decode("latin-1")})
+            elif kind == "absent":
+                if len(ev) < 10 or ev[0].get("rc") != "OK" or ev[1].get("out") != x.hex():
+                    chk.violation(dict(key, symptom="absent-open-type"), "%s without the OPTIONAL open type: decode %s, DER %s, reference %s" % (
+                        what, ev[0].get("rc") if ev else "-", (ev[1].get("out") if len(ev) > 1 else "-") or "-", x.hex()), replay)
+                elif b"<value>" in drv.unhex(ev[2].get("out") or ""):
+                    chk.violation(dict(key, symptom="absent-open-type-shown"), "%s without the open type: XER shows a <value> element" % what, replay)
+                else:
+                    for syn, di, ei in (("UPER", 4, 5), ("CXER", 8, 9)):
+                        chk.evaluations += 1
+                        if ev[di - 1].get("rc") in ("-1", None) or ev[di].get("rc") != "OK" or ev[ei].get("out") != x.hex():
+                            chk.violation(dict(key, symptom="absent-roundtrip", syntax=syn), "%s without the open type: %s round trip: encode %s, decode %s, DER %s" % (
+                                what, syn, ev[di - 1].get("rc"), ev[di].get("rc"), "equal" if ev[ei].get("out") == x.hex() else "differs"), replay)
+                        else:
+                            chk.count("absent_roundtrip_ok_" + syn)
             elif kind == "mismatch-BER":
                 alone, d = ev[0], ev[2]
                 if d.get("rc") == "OK" and alone.get("rc") != "OK":
